@@ -308,6 +308,53 @@ def judge(units, flat, src, std, intr, shadows, ref_scopes, bystander=False):
     return out, o
 
 
+def corrupt(src):
+    """the same source with a construct-name mismatch inserted before the END
+    of its LAST unit (rejected with a FortranSyntaxError raised by the name
+    check itself, after every earlier unit has matched); None if the last unit
+    has no execution part"""
+    lines = src.rstrip("\n").split("\n")
+    last = lines[-1].strip().lower()
+    if not last.startswith(("end program", "end subroutine", "end function")) and last != "end":
+        return None
+    return "\n".join(lines[:-1] + ["  zq: do i = 1, 2", "  end do qz", lines[-1]]) + "\n"
+
+
+def judge_after_rejected(units, flat, src, std, intr, shadows, ref_scopes):
+    """the property after a REJECTED parse with the same parser object and no
+    clearing in between: tables mirror the scoping structure of the source
+    parsed now, whatever was rejected before"""
+    from mc import base
+    from mc.base import FortranStringReader, Outcome
+
+    bad = corrupt(src)
+    if bad is None:
+        return None
+    p = base.parser_for(std)  # clears the tables
+    try:
+        base.with_timeout(20.0, lambda: p(FortranStringReader(bad)))
+        return [("model:corrupted-source-accepted", bad)]
+    except BaseException as e:
+        if type(e).__name__ != "FortranSyntaxError":
+            return [("rejected-parse-raised:" + type(e).__name__, str(e)[:200])]
+    try:
+        tree = base.with_timeout(20.0, lambda: p(FortranStringReader(src)))
+    except BaseException as e:
+        return [("after-rejected:rejected:" + type(e).__name__, str(e)[:200])]
+    out = []
+    exp = expected_tables(units, intr, shadows, ref_scopes, 0)
+    obs = observed_tables()
+    if obs != exp:
+        out.append(("after-rejected:table-tree", "after a rejected parse (same parser, tables not cleared) the tables differ from the scope tree of the source parsed now\n  observed: %s\n  model   : %s" % (obs, exp)))
+    classes = reference_classes(tree, flat, ref_scopes)
+    for i in sorted(ref_scopes):
+        want_intrinsic = not (intr[4] and visible_shadow(flat[i], shadows))
+        got = classes.get(i)
+        if got is not None and (got == "Intrinsic_Function_Reference") != want_intrinsic:
+            out.append(("after-rejected:resolution", "reference in scope %d is %s" % (i, got)))
+    return out
+
+
 def plan(tier, seed):
     return [(tier, name) for name in sorted(SHAPES)]
 
@@ -355,6 +402,21 @@ def run(task):
                 res.results.add(h64(repr(observed_tables()), repr(sorted(reference_classes(o.tree, flat, ref_scopes).items()))))
             for kind, detail in vs:
                 res.violation("C16|%s|%s" % (kind, feature(shape, shadows, flat)), "shape %s reference %s shadows %s std=%s\n%s\n--- source:\n%s" % (shape, intr[0], {flat[i].kind + " " + flat[i].name: DECLS[k] % intr[3] for i, k in shadows.items()}, std, detail, src), {"shape": shape, "intr": list(intr), "shadows": {str(k): v for k, v in shadows.items()}, "std": std, "bystander": bystander}, cost=len(src) + 1000 * len(shadows))
+        # once more after a rejected parse with the same parser object
+        if len(shadows) <= 1:
+            src = render(units, ref_scopes, intr, shadows, 0)
+            for std in stds:
+                vs = judge_after_rejected(units, flat, src, std, intr, shadows, ref_scopes)
+                if vs is None:
+                    continue
+                res.evals += 1
+                res.transitions += 2
+                hk = h64(src, std, "after-rejected")
+                res.states.add(hk)
+                res.nontrivial.add(hk)
+                res.outcomes["after-rejected:" + ("ok" if not vs else vs[0][0])] += 1
+                for kind, detail in vs:
+                    res.violation("C16|%s|%s" % (kind, feature(shape, shadows, flat)), "shape %s reference %s shadows %s std=%s\n%s\n--- rejected first:\n%s\n--- source:\n%s" % (shape, intr[0], {flat[i].kind + " " + flat[i].name: DECLS[k] % intr[3] for i, k in shadows.items()}, std, detail, corrupt(src), src), {"shape": shape, "intr": list(intr), "shadows": {str(k): v for k, v in shadows.items()}, "std": std, "bystander": 0, "after_rejected": True}, cost=len(src) + 1000 * len(shadows) + 500)
         if res.evals % 60 == 1:
             res.sample({"shape": shape, "shadows": {flat[i].name: DECLS[k] % intr[3] for i, k in shadows.items()}, "source": src})
     return res
@@ -368,5 +430,8 @@ def replay(case):
     ref_scopes = set(range(len(flat)))
     by = int(case.get("bystander") or 0)
     src = render(units, ref_scopes, intr, shadows, by)
+    if case.get("after_rejected"):
+        vs = judge_after_rejected(units, flat, src, case["std"], intr, shadows, ref_scopes) or []
+        return [{"sig": "C16|%s|%s" % (k, feature(case["shape"], shadows, flat)), "detail": d} for k, d in vs]
     vs, o = judge(units, flat, src, case["std"], intr, shadows, ref_scopes, by)
     return [{"sig": "C16|%s|%s" % (k, feature(case["shape"], shadows, flat)), "detail": d} for k, d in vs]
